@@ -142,7 +142,7 @@ func stormKey(j *job) string {
 
 func stormKey1(j *job) string {
 	t := j.toks
-	if len(t) < 2 || t[1] == "abuse" || t[1] == "other-table" || t[1] == "reuse" {
+	if len(t) < 2 || t[1] == "abuse" || t[1] == "other-table" || t[1] == "reuse" || t[1] == "toggle" {
 		return "" // calls the properties say nothing about: made alone, what matters is what follows them
 	}
 	switch t[0] {
